@@ -633,6 +633,9 @@ impl G2Projective {
         } else {
             scalars.len()
         };
+        if n == 0 {
+            return Self::identity();
+        }
 
         let points =
             unsafe { std::slice::from_raw_parts(points.as_ptr() as *const blst_p2, points.len()) };
